@@ -61,9 +61,31 @@ def _through_boltons(tb):
 
 
 def safe_run(sub, case):
-    """Run one case.  Returns (Outcome | None, harness_error_text | None)."""
+    """Run one case under the per-case time limit.  Returns (Outcome | None, harness_error_text | None).
+    A case that exceeds CASE_TIMEOUT is re-run once with CONFIRM_TIMEOUT; only if it exceeds that as well
+    (thousands of times the normal duration) it is reported as a failure of kind 'hang'."""
     try:
-        return sub.run(case), None
+        return _safe_run(sub, case, core.CASE_TIMEOUT)
+    except core.CaseTimeout:
+        pass
+    try:
+        return _safe_run(sub, case, core.CONFIRM_TIMEOUT)
+    except core.CaseTimeout:
+        out = core.Outcome()
+        out.fail('hang', 'the case did not finish within %.0f s (and %.0f s on a first attempt); normal cases take milliseconds' % (
+            core.CONFIRM_TIMEOUT, core.CASE_TIMEOUT))
+        return out, None
+
+
+def _safe_run(sub, case, seconds):
+    try:
+        return core.with_timeout(lambda: sub.run(case), seconds), None
+    except core.CaseTimeout:
+        raise
+    except MemoryError:
+        out = core.Outcome()
+        out.fail('memory', 'the case exhausted the %d GiB memory limit of the checking process' % (core.MEM_LIMIT >> 30))
+        return out, None
     except HarnessError:
         return None, traceback.format_exc(limit=6)
     except BaseException as e:   # noqa
@@ -81,6 +103,7 @@ def safe_run(sub, case):
 
 def _shard(task):
     (modname, sub_name, tier, seed, shard, n, deadline, active) = task
+    core.limit_memory()
     core.ACTIVE_KNOWN.clear()
     core.ACTIVE_KNOWN.update(active)
     import hypothesis
@@ -94,10 +117,12 @@ def _shard(task):
     }
 
     def body(case):
-        if time.time() > deadline:
+        if time.time() > deadline or st.get('stop'):
             st['skipped'] += 1
             return
         out, herr = safe_run(sub, case)
+        if out is not None and out.kind in ('hang', 'memory'):
+            st['stop'] = True       # do not spend the rest of the budget waiting on hangs
         if herr is not None:
             if len(st['harness']) < 3:
                 st['harness'].append({'case': case, 'error': herr})
@@ -171,6 +196,7 @@ def main(argv=None):
         return 2
     os.chdir(core.VERIF_DIR)
     sys.path.insert(0, core.VERIF_DIR)
+    core.limit_memory()
     try:
         _setup_path()
         _import_hypothesis()
@@ -315,9 +341,12 @@ def main(argv=None):
     max_shrink = 300 if tier == 'quick' else 1500
     for (sub_name, kind), (size, case, detail) in sorted(failures.items(), key=lambda kv: kv[1][0])[:6]:
         sub = mod.SUBS[sub_name]
-        small, n_ev = core.shrink(sub, case, kind, max_evals=max_shrink,
-                                  max_seconds=40 if tier == 'quick' else 240)
-        out, herr = safe_run(sub, small)
+        if kind in ('hang', 'memory'):
+            small, n_ev, out = case, 0, None
+        else:
+            small, n_ev = core.shrink(sub, case, kind, max_evals=max_shrink,
+                                      max_seconds=40 if tier == 'quick' else 240)
+            out, herr = safe_run(sub, small)
         if out is None or out.ok or out.kind != kind:
             # not reproducible deterministically -> still report the original
             small = case
